@@ -27,6 +27,16 @@ UNDECIDED = "undecided"              # resource limit / function left the suppor
 STATUSES = (PROVED, REFUTED, FAILED_NO_INPUT, UNDECIDED)
 
 
+def source_digest() -> Dict[str, str]:
+    """sha256 of every module of the library under verification (the tree the baseline was taken on)."""
+    import glob, hashlib
+    out = {}
+    for f in sorted(glob.glob(os.path.join(REPO, "fggs", "*.py"))):
+        with open(f, "rb") as fh:
+            out[os.path.basename(f)] = hashlib.sha256(fh.read()).hexdigest()
+    return out
+
+
 class CheckerError(Exception):
     """Engine inconsistency: never reported as a violation (exit 3)."""
 
